@@ -22,7 +22,8 @@ Section Premises.
   Definition LB (x : index) (edist : eid -> D) (cdist : Z -> D) (Vq : Z -> Prop) : Prop :=
     forall ce c e, Vq (fst ce) -> In c (x_cells x) -> rep ce c -> In e (snd c) ->
       less (edist e) (cdist (fst ce)) = false.
-  Definition SplitSound (x : index) (Vq : Z -> Prop) : Prop := forall q, Vq q ->
+  Definition SplitSound (x : index) (Vq : Z -> Prop) : Prop :=
+    forall q, Vq q -> (exists c, In c (x_cells x) /\ rep (q, None) c) ->
     (forall ce, In ce (split_cell x q) -> Vq (fst ce) /\ centry_ok x ce) /\
     (forall c, In c (x_cells x) -> rep (q, None) c -> exists ce, In ce (split_cell x q) /\ rep ce c).
   Definition EmptyFar (t : target D) (edist : eid -> D) : Prop :=
